@@ -49,10 +49,11 @@ def gen_input(r, quick):
             f["whole"] = r.chance(1, 6)
             if k > 0 and files[-1]["kind"] == "ar" and files[-1].get("whole") == f["whole"] and r.chance(1, 2):
                 f["group"] = files[-1]["group"]
+                f["thin"] = files[-1]["thin"]
             else:
                 group += 1
                 f["group"] = group
-            f["thin"] = False
+                f["thin"] = r.chance(1, 3)      # thin archives (ar rcT): members stay separate files, same loading rules
         if kind == "so":
             f["as_needed"] = r.chance(1, 3)
         files.append(f)
@@ -80,6 +81,19 @@ def gen_input(r, quick):
         refs = [k for k, f in enumerate(files) if f["kind"] != "so" and r.chance(1, 2)] or [0]
         for k in refs:
             files[k]["entries"].append(("U", n, r.chance(1, 2)))
+    # several common definitions of one name with EQUAL sizes ("the first definition in command-line order wins among equals"),
+    # sometimes next to a smaller one; the selected definition is visible through the alignment it asks for (linkmodel.calign)
+    if r.chance(1, 3):
+        n = 300
+        objs = [k for k, f in enumerate(files) if f["kind"] == "obj"]
+        if len(objs) >= 2:
+            size = r.choice([8, 16, 32])
+            chosen = [k for k in objs if r.chance(2, 3)]
+            if len(chosen) < 2:
+                chosen = objs[:2]
+            for k in chosen:
+                files[k]["entries"].append(("D", n, "c", size // 2 if (size > 8 and r.chance(1, 5)) else size, False))
+            files[0]["entries"].append(("U", n, False))
     # archive members are only interesting if something may pull them: give each a unique name sometimes referenced from file 0
     for k, f in enumerate(files):
         if f["kind"] == "ar" and r.chance(2, 3):
@@ -141,6 +155,30 @@ def canon_model(files, line):
     return " ".join(out)
 
 
+def common_alignment_verdict(files, model_raw_line, ci, out):
+    """A common symbol's storage is allocated from the selected definition, so it must honour that definition's alignment
+    (the definitions ask for decreasing alignments along the command line, see linkmodel.calign). Appends MISALIGNED:<name>
+    to the implementation's outcome when the selected common definition's alignment is not honoured."""
+    if ci.startswith("err") or not os.path.exists(out):
+        return ci
+    toks = model_raw_line.split()
+    bad = []
+    addrs = None
+    for t in toks[2:]:
+        n, r = t.split(":")
+        if not r.isdigit():
+            continue
+        n, r = int(n), int(r)
+        f = files[r]
+        if f["kind"] == "so" or not any(en[0] == "D" and en[1] == n and en[2] == "c" for en in f["entries"]):
+            continue
+        if addrs is None:
+            addrs = lm.common_alignments(out, files)
+        if n in addrs and addrs[n] % lm.calign(r) != 0:
+            bad.append(f"MISALIGNED:{n}:selected-common-of-file-{r}-wants-{lm.calign(r)}:addr-0x{addrs[n]:x}")
+    return ci + (" " + " ".join(bad) if bad else "")
+
+
 def run_linker(linker, d, line, allow_multi, out, threads=None):
     args = ["--no-gc-sections", "-o", out] + line
     if allow_multi:
@@ -179,7 +217,8 @@ def _outcomes(ctx, files, am, tag):
     out = os.path.join(d, "out.wild")
     rc, o, e = run_linker("wild", d, line, am, out, threads=2)
     req = lm.request_line(files, am)
-    return req, canon_impl(files, rc, e, out), canon_model(files, ctx.model_eval([req])[0]), line, d
+    mraw = ctx.model_eval([req])[0]
+    return req, common_alignment_verdict(files, mraw, canon_impl(files, rc, e, out), out), canon_model(files, mraw), line, d
 
 
 def shrink(ctx, files, am, budget=60):
@@ -243,6 +282,7 @@ def run(ctx):
             ctx.count("file-kind", f["kind"])
     model_raw = ctx.model_eval(reqs)
     model = [canon_model(inp[0], m) for inp, m in zip(inputs, model_raw)]
+    impl = [common_alignment_verdict(inp[0], m, ci, os.path.join(inp[3], "out.wild")) for inp, m, ci in zip(inputs, model_raw, impl)]
 
     def nontrivial(l, a, b):
         defs = {}
@@ -265,7 +305,7 @@ def run(ctx):
         for lk in ("ld", "lld"):
             out = os.path.join(d, "out." + lk)
             rc, o, e = run_linker(lk, d, line, am, out)
-            verdicts[lk] = canon_impl(files, rc, e, out)
+            verdicts[lk] = common_alignment_verdict(files, model_raw[i], canon_impl(files, rc, e, out), out)
         oracle_checked += 1
         if verdicts["ld"] == verdicts["lld"] and load_set_differs(files, model_raw[i], verdicts["ld"]):
             ctx.count("oracle", "skipped-load-set-differs")
